@@ -89,7 +89,8 @@ CATALOGUE = [
     ('reify_attributes', 4), ('indicate_branches', 3), ('canonicalize_roles', 2), ('queries', 4), ('or', 4), ('sub', 4),
     ('errors', 3), ('errors_union', 3), ('errors_islands', 2), ('role_algebra', 2), ('node_contexts', 3), ('appears_inverted', 3), ('alignments', 2),
     ('tree_nodes_walk', 2), ('graph_eq', 1), ('codec_api', 3), ('model_reify', 3), ('model_from_dict', 1),
-    ('raising_key', 3), ('model_copies', 2), ('sniff_then_decode', 2),
+    ('raising_key', 3), ('model_copies', 2), ('sniff_then_decode', 2), ('canonicalize_then_rearrange', 3),
+    ('decode_edit_marker_decode', 2),
     # derive, then mutate the derived object in place
     ('or_then_ior', 3), ('sub_then_isub', 3), ('copy_then_top', 2), ('configure_then_rearrange', 3),
     ('configure_then_reset_variables', 3), ('or_then_sort', 2), ('indicate_then_ior', 2),
@@ -403,6 +404,36 @@ def run_op(w, op, local):
         layout.rearrange(t2, key=model.alphanumeric_order)
         out.append(t2)
         return out
+    if name == 'canonicalize_then_rearrange':
+        # the tree returned by canonicalize_roles is the caller's own: re-ordering and relabelling it in place
+        # must not reach the argument
+        tt = transform.canonicalize_roles(t, model)
+        layout.rearrange(tt, key=[model.canonical_order, model.alphanumeric_order, lambda role: -len(role)][op['a'] % 3],
+                         attributes_first=bool(op['a'] % 2))
+        tt.reset_variables('r{i}')
+        # (not tt.metadata: canonicalize_roles, like configure, hands the argument's metadata dict on - section 12)
+        return tt
+    if name == 'decode_edit_marker_decode':
+        # markers of a decoded graph are the caller's own objects: editing one in place must not show up in any
+        # other decode of the same text (invariant inside the operation: reference and run would agree with each
+        # other about a marker object that is shared process-wide)
+        before = digest.canon(penman.decode(text, model=model))
+        mine = penman.decode(text, model=model)
+        edited = 0
+        for tr in list(mine.epidata):
+            for epi in mine.epidata[tr]:
+                if hasattr(epi, 'indices'):
+                    epi.indices = tuple(i + 10 for i in epi.indices)
+                    epi.prefix = 'edited.'
+                    edited += 1
+                elif hasattr(epi, 'variable') and epi.variable is not None:
+                    epi.variable = 'edited-' + str(epi.variable)
+                    edited += 1
+        after = digest.canon(penman.decode(text, model=model))
+        if after != before:
+            return ['INVARIANT-BROKEN', 'decode-result-shares-marker-objects-with-an-earlier-result',
+                    {'edited_markers': edited, 'before': _short(before), 'after': _short(after)}]
+        return [edited, after]
     if name == 'sniff_then_decode':
         # format sniffing: try the triple-conjunction parser first, fall back to PENMAN
         try:
@@ -760,7 +791,7 @@ def _execute(trace, cfg, clients, res, levels=('WARNING', 'WARNING')):
         res.hit('probe.lazy_iterator_interleaved')
     if any(o['op'] in ('or_then_ior', 'sub_then_isub', 'copy_then_top', 'configure_then_rearrange',
                        'configure_then_reset_variables', 'or_then_sort', 'indicate_then_ior',
-                       'parse_then_edit_metadata')
+                       'parse_then_edit_metadata', 'canonicalize_then_rearrange', 'decode_edit_marker_decode')
            for ops in clients for o in ops):
         res.hit('probe.inplace_on_derived')
     if any(o.get('pickle') for ops in clients for o in ops):
